@@ -107,6 +107,7 @@ class Knobs:
         self.latency = 0.0            # answer latency (virtual seconds)
         self.silent_from = None       # index into STEPS from which no answers are given
         self.names_order = None       # callable(list of zones) -> the order they are listed in
+        self.ability_order = None     # callable(list of ACs) -> the order they are listed in
         self.answer_gap = 0.0         # pause between a step's extra frames and its answer
         self.extra_when_silent = False  # the extra frames of a step are sent although unanswered
         self.silent_kinds = set()     # request kinds never answered
@@ -266,10 +267,14 @@ class SimConsole:
         return self.f_ext(0xFF13, body, pid)
 
     def frame_ability(self, pid=None):
+        acs = list(self.inst["acs"])
+        if self.knobs.ability_order is not None:
+            # every record carries its own AC number: they may be listed in any order
+            acs = self.knobs.ability_order(acs)
         if self.gen == 4:
-            body = b"".join(R.b4_ability_record(a["ability"]) for a in self.inst["acs"])
+            body = b"".join(R.b4_ability_record(a["ability"]) for a in acs)
         else:
-            body = b"".join(R.b5_ability_record(a["ability"]) for a in self.inst["acs"])
+            body = b"".join(R.b5_ability_record(a["ability"]) for a in acs)
         return self.f_ext(0xFF11, body, pid)
 
     def frame_ac_status(self, pid=None, only=None, **kw):
